@@ -435,10 +435,22 @@ def r8(p, rep):
                     continue
             rep.add("C01.R8", key, site, ok, f"{what} receives an axis derived from the `axis` parameter" if ok else f"{what} is applied to the operand without the `axis` the lowering was asked for (`{norm(c)[:70]}`): it works over all elements instead of per slice, so the loop iterations are no longer independent (e.g. one global maximum in softmax)")
 
-def _selector(fnode, value, depth=0):
+def _selector(fnode, value, depth=0, p=None, module=None):
     """which element of a collection of concatenated axes is taken: 'first' / 'last' / other description / None"""
     if depth > 3:
         return None
+    if p is not None and isinstance(value, ast.Call):
+        r = resolve_callee(p, value, module)
+        if r and r[0] == "func" and r[1].module is module:
+            g = r[1].node
+            # helper that scans and returns at the first match: `for i, e in enumerate(x): if isinstance(e, C): return i, e`
+            for loop in [n for n in walk_no_nested(g) if isinstance(n, ast.For)]:
+                hit = [st for st in ast.walk(loop) if isinstance(st, ast.If) and any(norm(y).endswith("ConcatenatedAxis") for y in ast.walk(st.test)) and any(isinstance(z, ast.Return) for z in st.body)]
+                if hit:
+                    return "last" if "reversed(" in norm(loop.iter) else "first"
+            rets = [n for n in walk_no_nested(g) if isinstance(n, ast.Return) and n.value is not None]
+            if len(rets) == 1:
+                return _selector(g, rets[0].value, depth + 1, p, module)
 
     def mentions_concat(e):
         if any(isinstance(x, ast.Attribute) and x.attr == "ConcatenatedAxis" or isinstance(x, ast.Name) and x.id == "ConcatenatedAxis" for x in ast.walk(e)):
@@ -479,7 +491,7 @@ def r9(p, rep):
     for m in cls.methods.values():
         for a in walk_no_nested(m.node):
             if isinstance(a, ast.Assign) and len(a.targets) == 1 and isinstance(a.targets[0], ast.Tuple) and len(a.targets[0].elts) == 2:
-                sel = _selector(m.node, a.value)
+                sel = _selector(m.node, a.value, 0, p, m.module)
                 if sel is not None:
                     picks.append((m, a, sel))
     if len(picks) < 2:
